@@ -21,7 +21,7 @@ type c17 struct{}
 func (c17) ID() string    { return "C17" }
 func (c17) Level() string { return "exploration" }
 func (c17) Rule() string {
-	return "full product of {explicit name: unset, ok, invalid x2} x {COMPOSE_PROJECT_NAME: absent | via WithEnv, OS, .env; valid or invalid} x {name: in none/first/last/both of two files or a second --- document} x {name text: literal, ${VAR} set, ${VAR} unset, mixed case, normalises to empty} x {directory base name: plain, upper+dot, leading symbol, unicode, normalises to empty}, loaded through cli.NewProjectOptions/LoadProject; every string of length <= 3 over 8 character classes (lower, upper, digit, _, -, ., @, non-ASCII) as directory base name and as literal file name; and a variable defined in every non-empty subset of {WithEnv, OS environment, .env #1, .env #2} under all 8 documented option orders, plus .env #2 values referencing a variable defined in each subset of the layers above. Reference = the precedence chains of Appendix A.4. distinct = distinct (configuration class, outcome) pairs"
+	return "full product of {explicit name: unset, ok, invalid x2} x {COMPOSE_PROJECT_NAME: absent | via WithEnv, OS, .env; valid or invalid} x {name: in none/first/last/both of two files or a second --- document} x {name text: literal, ${VAR} set, ${VAR} unset, mixed case, normalises to empty} x {directory base name: plain, upper+dot, leading symbol, unicode, normalises to empty}, loaded through cli.NewProjectOptions/LoadProject; every string of length <= 3 (thorough: 4) over 8 character classes (lower, upper, digit, _, -, ., @, non-ASCII) as directory base name, as literal file name and as COMPOSE_PROJECT_NAME (explicit environment, .env); and a variable defined in every non-empty subset of {WithEnv, OS environment, .env #1, .env #2} under all 8 documented option orders, plus .env #2 values referencing a variable defined in each subset of the layers above. Reference = the precedence chains of Appendix A.4. distinct = distinct (configuration class, outcome) pairs"
 }
 func (c17) Assumptions() []string {
 	return []string{
@@ -114,7 +114,11 @@ func (c17) Run(c *core.Ctx) {
 			gen(prefix+a, n-1)
 		}
 	}
-	gen("", 3)
+	maxShape := 3
+	if !c.Quick() {
+		maxShape = 4
+	}
+	gen("", maxShape)
 	for _, sh := range shapes {
 		sh := sh
 		if sh != "." && sh != ".." {
@@ -123,6 +127,15 @@ func (c17) Run(c *core.Ctx) {
 		}
 		nc := c17nameCase{"", 0, true, 1, 0, "app"}
 		c.Do("shape/file/"+sh, func() core.Outcome { return c17nameCheck(base, nc, []string{sh}, []string{c17norm(sh)}) })
+		// the same string requested through COMPOSE_PROJECT_NAME (explicit environment, .env): accepted iff it is
+		// already in canonical form, never adjusted
+		for _, src := range []int{1, 3} {
+			src := src
+			if src == 3 && (strings.ContainsAny(sh, " ") || strings.HasPrefix(sh, "-")) {
+				continue
+			}
+			c.Do(fmt.Sprintf("shape/env%d/%s", src, sh), func() core.Outcome { return c17envNameCheck(base, sh, src) })
+		}
 	}
 	c17envLattice(c, base)
 }
@@ -247,6 +260,45 @@ func c17nameCheck(base string, nc c17nameCase, texts, textVal []string) core.Out
 		return core.Outcome{Class: "wrong", Sample: sample, Viol: &core.Violation{Key: "name:wrong-precedence:" + src, Msg: fmt.Sprintf("%s: project name %q, expected %q", nc.id(), p.Name, want)}}
 	}
 	return core.Outcome{Class: fmt.Sprintf("%s/%d/%d/%s", nc.explicit, nc.envSource, nc.placement, p.Name), Sample: sample}
+}
+
+// c17envNameCheck: COMPOSE_PROJECT_NAME = name through WithEnv (src 1) or a .env file (src 3), nothing else naming the project.
+func c17envNameCheck(base, name string, src int) core.Outcome {
+	scratchSeq++
+	wd := filepath.Join(base, fmt.Sprintf("e%d", scratchSeq), "app")
+	os.MkdirAll(wd, 0o755)
+	defer os.RemoveAll(filepath.Dir(wd))
+	os.WriteFile(filepath.Join(wd, "a.yaml"), []byte("services:\n  s:\n    image: i\n    labels:\n      pn: \"${COMPOSE_PROJECT_NAME}\"\n"), 0o644)
+	opts := []cli.ProjectOptionsFn{cli.WithWorkingDirectory(wd)}
+	if src == 1 {
+		opts = append(opts, cli.WithEnv([]string{"COMPOSE_PROJECT_NAME=" + name}))
+	} else {
+		os.WriteFile(filepath.Join(wd, ".env"), []byte("COMPOSE_PROJECT_NAME='"+name+"'\n"), 0o644)
+	}
+	opts = append(opts, cli.WithEnvFiles(), cli.WithDotEnv)
+	p, err := c17load(wd, []string{filepath.Join(wd, "a.yaml")}, opts...)
+	id := fmt.Sprintf("shape/env%d/%s", src, name)
+	sample := map[string]any{"case": id, "requested": name}
+	if pe, ok := err.(*core.PanicError); ok {
+		return core.Outcome{Class: "panic", Sample: sample, Viol: &core.Violation{Key: "panic@" + pe.Site, Msg: id + ": " + pe.Error(), Detail: pe.Stack}}
+	}
+	canonical := name != "" && c17nameRe.MatchString(name)
+	if err == nil {
+		if !c17nameRe.MatchString(p.Name) {
+			return core.Outcome{Class: "bad-name", Sample: sample, Viol: &core.Violation{Key: "name:shape", Msg: fmt.Sprintf("%s: loaded with project name %q", id, p.Name)}}
+		}
+		if !canonical {
+			return core.Outcome{Class: "accepted", Sample: sample, Viol: &core.Violation{Key: "name:invalid-accepted", Msg: fmt.Sprintf("%s: COMPOSE_PROJECT_NAME=%q is not in canonical form and must be rejected; loaded with name %q", id, name, p.Name)}}
+		}
+		if p.Name != name {
+			return core.Outcome{Class: "wrong", Sample: sample, Viol: &core.Violation{Key: "name:wrong-precedence:env", Msg: fmt.Sprintf("%s: project name %q, expected %q", id, p.Name, name)}}
+		}
+		return core.Outcome{Class: "env-name-ok"}
+	}
+	if canonical {
+		return core.Outcome{Class: "error", Sample: sample, Viol: &core.Violation{Key: "name:spurious-error", Msg: fmt.Sprintf("%s: the canonical name %q is rejected: %v", id, name, err)}}
+	}
+	return core.Outcome{Class: "env-name-rejected"}
 }
 
 func c17envLattice(c *core.Ctx, base string) {
